@@ -826,7 +826,8 @@ class C17:
     # grids of 2^31 .. 2^32 and more points. The statement is about the listed values and their index ranges; a grid whose abscissae
     # lie, all but a handful per axis, beyond the last knot has the very values of the small grid made of that handful, at the
     # corresponding indices, and nothing else: an entry is the specification value at the coordinates of its own grid point
-    # (C17_grideval_spec), and that value is zero as soon as one coordinate lies beyond the last knot (C17_beyond_last_knot_is_zero).
+    # (C17_grideval_spec), and that value is zero as soon as one coordinate lies beyond the last knot (C17_beyond_last_knot_is_zero):
+    # C17_huge_grid_is_small_grid_reindexed.
     # So the result of the huge grid must be the result of the small one re-indexed — compared bitwise, C++ member and C wrapper.
     HUGE_SHAPES = {2: [(65536, 32768), (32768, 65536), (65536, 32767), (65536, 65536), (65536, 49152), (46341, 46342)],
                    3: [(2048, 2048, 512), (1024, 2048, 1024), (1291, 1291, 1290), (2048, 2048, 1024), (4096, 1024, 767)],
